@@ -1,6 +1,6 @@
 #!/bin/sh
 # Maintainer helper: apply a seeded patch to /repo, run the given checks (quick tier), undo.  usage: try_seed.sh <patch> Cxx [Cyy...]
 P=$1; shift
-git -C /repo apply $P || { echo "PATCH DOES NOT APPLY"; exit 9; }
+git -C /repo apply $P 2>/dev/null || git -C /repo apply -3 $P 2>/dev/null || { echo "PATCH DOES NOT APPLY"; exit 9; }
 for c in "$@"; do echo "== $c"; (cd /verif && timeout 1200 python3 tools/run_check.py $c --tier ${TIER:-quick} 2>&1 | grep -v "^  detail" | cut -c1-260 | head -${LINES_MAX:-12}; ); done
-git -C /repo checkout -- .
+git -C /repo reset -q --hard HEAD
